@@ -176,7 +176,7 @@ struct WlanEngine : Engine {
     }
 
     // ------------------------------------------------------------------------------------------------ execution
-    struct RefSess { int stage; uint64_t rc1, rc3; uint8_t an[32], an3[32], sn[32]; bool have; Bytes ptk; bool known; int known_kid; RefSess() : stage(0), rc1(0), rc3(0), have(false), known(false), known_kid(-1) {} };
+    struct RefSess { int stage; uint64_t rc1, rc3; uint8_t an[32], an3[32], sn[32]; bool have, partial_possible = false; Bytes ptk; bool known; int known_kid; RefSess() : stage(0), rc1(0), rc3(0), have(false), known(false), known_kid(-1) {} };
 
     Verdict execute(const Plan& p, RunStats& st, Trace& tr) {
         using namespace Tins;
@@ -211,11 +211,18 @@ struct WlanEngine : Engine {
             if (f.ok && f.type == 2 && !f.protected_ && is_eapol_body(f.body, e)) {
                 EapolKey ek = parse_eapol(e); const uint8_t* sta = f.from_ds ? f.a1 : f.a2; skey = hex(f.bssid(), 6) + "|" + hex(sta, 6); RefSess& r = ref[skey]; int m = ek.msg(); order_sig += (char)('0' + m);
                 bool ap_ok = !b.unreg && (cfgmode == 1 || (cfgmode == 0 && ap_known.count(hex(f.bssid(), 6))));
+                if (m >= 1 && m <= 3) r.partial_possible = true;
                 if (m == 1) { if (!r.have || ek.replay > r.rc1) { r.have = true; r.stage = 1; r.rc1 = ek.replay; memcpy(r.an, ek.nonce, 32); st.inc("probe.ref_m1_new_attempt"); } else st.inc("probe.ref_m1_duplicate_ignored"); }
                 else if (m == 2) { if (r.have && ek.replay == r.rc1 && r.stage == 1) { memcpy(r.sn, ek.nonce, 32); r.stage = 2; } else if (r.have && r.stage >= 2) st.inc("probe.ref_m2_duplicate_ignored"); }
                 else if (m == 3) { if (r.have && r.stage == 2) { r.stage = 3; r.rc3 = ek.replay; memcpy(r.an3, ek.nonce, 32); if (memcmp(r.an, r.an3, 32) != 0) st.inc("probe.ref_m3_anonce_differs_from_held_m1"); } else if (r.have && r.stage == 3 && ek.replay > r.rc3) { r.rc3 = ek.replay; memcpy(r.an3, ek.nonce, 32); st.inc("probe.ref_m3_retransmitted_before_m4"); } else if (r.have && r.stage == 3) st.inc("probe.ref_m3_duplicate_ignored"); }
-                else if (m == 4) { if (r.have && r.stage == 3 && ek.replay <= r.rc3 && b.cipher >= TKIP) { Bytes ptk = wcrypto::ptk_of(b.pmk, f.bssid(), sta, r.an3, r.sn); uint8_t mic[16]; Bytes z = e; if (z.size() >= 97) std::fill(z.begin() + 81, z.begin() + 97, 0); z.resize(std::min<size_t>(z.size(), 99 + ek.data.size())); wcrypto::eapol_mic(Bytes(ptk.begin(), ptk.begin() + 16), ek.desc_version(), z, mic);
-                        if (memcmp(mic, ek.mic, 16) == 0) { if (ap_ok) { r.ptk = ptk; r.known = true; st.inc("probe.ref_handshake_complete"); } r.stage = 0; r.have = false; } else { st.inc("probe.ref_m4_mic_invalid"); r.stage = 0; r.have = false;   /* a message 4 that does not verify (damaged copy, stale nonce) ends the attempt: nothing is demanded of this exchange any more, not even when an intact retry follows (histories with damaged messages are outside the property's premise) */ } } }
+                else if (m == 4) { bool took = false; if (r.have && r.stage == 3 && ek.replay <= r.rc3 && b.cipher >= TKIP) { Bytes ptk = wcrypto::ptk_of(b.pmk, f.bssid(), sta, r.an3, r.sn); uint8_t mic[16]; Bytes z = e; if (z.size() >= 97) std::fill(z.begin() + 81, z.begin() + 97, 0); z.resize(std::min<size_t>(z.size(), 99 + ek.data.size())); wcrypto::eapol_mic(Bytes(ptk.begin(), ptk.begin() + 16), ek.desc_version(), z, mic);
+                        if (memcmp(mic, ek.mic, 16) == 0) { took = true; if (ap_ok) { r.ptk = ptk; r.known = true; st.inc("probe.ref_handshake_complete"); } r.stage = 0; r.have = false; } else { st.inc("probe.ref_m4_mic_invalid"); r.stage = 0; r.have = false;   /* a message 4 that does not verify (damaged copy, stale nonce) ends the attempt: nothing is demanded of this exchange any more, not even when an intact retry follows (histories with damaged messages are outside the property's premise) */ } }
+                    // a message 4 this conservative tracker did not accept may still have completed an exchange for the decrypter (it follows
+                    // exchanges the tracker abandons, e.g. after a counter restart) and replaced the session's keys: nothing is demanded of the
+                    // key the tracker holds from then on. A mere duplicate of the message 4 that completed the last exchange cannot (no message
+                    // 1-3 since, so the decrypter holds no partial exchange)
+                    if (took) r.partial_possible = false;      /* the decrypter completed this exchange too and dropped its partial state */
+                    else if (r.known && r.partial_possible) { r.known = false; st.inc("probe.ref_key_possibly_superseded"); } }
             }
             // ---- SUT
             std::unique_ptr<PDU> pdu; bool parsed = true;
